@@ -1,5 +1,6 @@
 import Verif.Base.Pack
 import Verif.Spec.TableChecks
+import Verif.Spec.TraitChecks
 import Verif.Proofs.C17Entities
 import Verif.Proofs.C17Tables
 import Verif.Spec.HtmlRefs
